@@ -68,6 +68,12 @@ def _list_items(cp):
   orphan_sections = cp.orphan_sections
   raw_items = _parse_raw(cp, orphan_sections)
   items.extend(raw_items)
+
+  # [Variables] (the parser's default section, absent from sections()): its entries are items like any other,
+  # addressed as Variables:NAME by --override-item, --add-item and --item-value
+  raw_cp = cp.raw_config_parser
+  for k in raw_cp.defaults():
+    items.append(("{section}:{key}".format(section = raw_cp.default_section, key = k), raw_cp.get(raw_cp.default_section, k)))
   return items
 
 def _list_item_labels(cp):
@@ -85,8 +91,14 @@ def _list_plot_item_labels(cp):
   return outlist  
 
 def _item_value(cp, key):
+  from ...config._config_parser import ConfigOverrideException
+  if not ":" in key:
+    raise ConfigOverrideException("'{}' does not name an item: items are given as SECTION_NAME:KEY".format(key))
   section, section_key = key.rsplit(":",1)
-  v = cp.raw_config_parser[section][section_key]
+  raw_cp = cp.raw_config_parser
+  if not (section == raw_cp.default_section or raw_cp.has_section(section)) or not raw_cp.has_option(section, section_key):
+    raise ConfigOverrideException("Entry [{section}]: '{key}' not found in configuration file".format(section = section, key = section_key))
+  v = raw_cp[section][section_key]
   return v 
 
 def action_list_items(cp):
